@@ -4,6 +4,9 @@ use serde::{Deserialize, Serialize};
 
 #[derive(Clone, Debug, PartialEq, Eq, Hash, Serialize, Deserialize)]
 pub enum OutKind {
+    /// a key event written while handling an OS auto-repeat input (KeyValue::Repeat): the
+    /// simulated recorder prints it like a press
+    RepeatOut,
     Press,
     Release,
     MouseDown,
@@ -86,6 +89,8 @@ pub struct DownSet {
     pub buttons: Vec<String>,
     pub repeats: u64,
     pub orphan_releases: u64,
+    /// repeat outputs for keys that are not down at the OS
+    pub repeats_for_up_keys: u64,
 }
 
 impl DownSet {
@@ -96,6 +101,13 @@ impl DownSet {
                     self.repeats += 1;
                 } else {
                     self.keys.push(e.key.clone());
+                }
+            }
+            OutKind::RepeatOut => {
+                if self.keys.contains(&e.key) {
+                    self.repeats += 1;
+                } else {
+                    self.repeats_for_up_keys += 1;
                 }
             }
             OutKind::Release => {
@@ -170,6 +182,7 @@ pub fn outs_short(outs: &[OutEv]) -> String {
     for e in outs {
         let k = match e.kind {
             OutKind::Press => "↓",
+            OutKind::RepeatOut => "⟳",
             OutKind::Release => "↑",
             OutKind::MouseDown => "🖰↓",
             OutKind::MouseUp => "🖰↑",
